@@ -310,6 +310,8 @@ class Interp:
             return Bag(sym.Choice([a.elem, b.elem]), None, False, a.src)
         if isinstance(a, FuncV) and isinstance(b, FuncV) and a.kind == b.kind and a.target == b.target:
             return a
+        if isinstance(a, DictV) and isinstance(b, DictV) and set(a.d) == set(b.d) and a.generic is None and b.generic is None:
+            return DictV({k: self.join_cond(c, a.d[k], b.d[k]) for k in a.d})
         if isinstance(a, ObjV) and isinstance(b, ObjV) and (a is b or (a.tag is not None and a.tag == b.tag
                                                                        and a.cls == b.cls)):
             return a
@@ -371,7 +373,11 @@ class Interp:
         if isinstance(st, ast.AugAssign):
             cur = self.eval(_load(st.target), env)
             rhs = self.eval(st.value, env)
-            v = self.binary(st.op, cur, rhs, st)
+            try:
+                v = self.binary(st.op, cur, rhs, st)
+            except ShapeError as ex:
+                self.event("shape-error", st, message=str(ex))
+                v = self.unknown("shape-error", st)
             self.assign(st.target, v, env, st, aug=True)
             return env
         if isinstance(st, ast.Return):
@@ -715,7 +721,7 @@ class Interp:
                     ph = place[n]
                     kind, val = self._fold(n, ph, old_init, new, sp, iv, is_for)
                     loop_rec["carried"][n] = dict(kind=kind, init=old_init, update=new, placeholder=ph)
-                    if kind in ("unchanged", "fold", "overwrite"):
+                    if kind in ("unchanged", "fold", "overwrite", "pointwise"):
                         post[n] = val
                     else:
                         # generic join: substitute the placeholder by the current approximation and iterate
@@ -787,6 +793,12 @@ class Interp:
         if e == ph:
             return "unchanged", init
         if ph not in set(sym.walk(e)):
+            if isinstance(new, Arr) and isinstance(init, Arr) and is_for and sp is not None and new.ndim >= 1 \
+                    and new.axes[0][0].same_size(sp):
+                # element-wise definition: the loop visits every position of the array's first axis and stores there
+                ax_iv = init.axes[0][1]
+                e2 = sym.subst_ivar(e, iv, (ax_iv, 0)) if iv in sym.free_ivars(e) else e
+                return "pointwise", Arr(init.axes, e2, "nd", init.uid)
             # overwritten every iteration: afterwards it is the initial value (zero trips) or the last value
             v = _forget_iv(new, iv) if iv else new
             return "overwrite", self.join_cond(sym.Opq("config", (), "loop-ran"), v, init)
@@ -1499,6 +1511,27 @@ class Interp:
                 r = h(self, n, pos, kwargs)
                 self.log[-1]["result"] = r if self.log and self.log[-1].get("node") is n else None
                 return r
+            if fv.kind == "opaque":
+                # an uninterpreted element-wise function (user-supplied weight / kernel): K(args...) per element
+                self.event("opaque-call", n, target=fv.target, pos=pos, kwargs=kwargs)
+                vals = list(pos) + [kwargs[k] for k in sorted(kwargs)]
+                flat_vals = []
+                for v in vals:
+                    if isinstance(v, Seq):
+                        flat_vals.extend(v.items)
+                    elif isinstance(v, Arr) and v.ndim == 1 and v.axes[0][0].concrete is not None and v.axes[0][0].concrete <= 4:
+                        flat_vals.extend(arrays.index(v, [("int", k)]) for k in range(v.axes[0][0].concrete))
+                    else:
+                        flat_vals.append(v)
+                acc = None
+                for v in flat_vals:
+                    if acc is None:
+                        acc = arrays.unop(lambda e: sym.Expr(("tuple", e)), v)
+                    else:
+                        acc = arrays.binop(lambda a, b: sym.Expr(("tuple",) + tuple(a[1:]) + (b,)), acc, v)
+                if acc is None:
+                    return Sc(sym.Opq(fv.target, (), None))
+                return arrays.unop(lambda e: sym.Opq(fv.target, tuple(e[1:]), None), acc)
             if fv.kind == "method":
                 h = self.method_prims.get(fv.target)
                 self.event("method-call", n, target=fv.target, recv=fv.bound_self, pos=pos, kwargs=kwargs)
